@@ -246,6 +246,8 @@ def run(ctx, tier, res, tag=''):
             else:
                 res.undec(text)
     res.extra['bound' + tag] = 'path lengths and element counts are enumerated (see rule); contents are universally quantified'
+    from .. import promises
+    promises.report(ctx, res, [SET_PATH, SET_DATA], promises.MEMORY_KINDS, tag)
     res.rule = ('per shape (address mode, path length in {0,1,2,13,128,255} [thorough: 0..16,31..33,127,128,255,256,1000,2026], each of the 24 datatypes, element '
                 'count in {0,1,2,3,130} [0..8,15..17,130,1024,4096] / string length {0,1,5,128,255,256,32768} [0..8,127,128,255,256,4096,32767,32768,65535]): SetVssPath then SetVssData interpreted on an exact-extent message region whose header pins '
                 'only addr_mode and vss_datatype, with symbolic path bytes, static id and values; final image must equal the reference '
